@@ -107,7 +107,7 @@ Qed.
 
 (* ---------- a behaving transport ---------- *)
 Lemma broker_feed_fields : forall w a, w_sess (broker_feed w a) = w_sess w /\ w_script (broker_feed w a) = w_script w /\
-  w_live (broker_feed w a) = w_live w /\ w_now (broker_feed w a) = w_now w.
+  w_live (broker_feed w a) = w_live w /\ w_now (broker_feed w a) = w_now w /\ w_wire (broker_feed w a) = w_wire w.
 Proof.
   intros w a. unfold broker_feed. destruct (N.eqb (w_broker w) 0); [repeat split|].
   destruct (broker_split _ _ _ _) as [replies rest]. destruct replies; repeat split.
@@ -115,7 +115,7 @@ Qed.
 
 Lemma io_write_healthy : forall w bs, w_script w = [] -> bs <> [] -> lenN bs <= BIG ->
   exists w1, io_write bs w = (w1, WOk (lenN bs)) /\
-    w_sess w1 = w_sess w /\ w_script w1 = [] /\ w_live w1 = w_live w /\ w_now w1 = w_now w.
+    w_sess w1 = w_sess w /\ w_script w1 = [] /\ w_live w1 = w_live w /\ w_now w1 = w_now w /\ w_wire w1 = w_wire w ++ bs.
 Proof.
   intros w bs Hs Hne Hl. unfold io_write.
   assert (H0 : lenN bs <> 0) by (destruct bs; [contradiction|rewrite lenN_cons; lia]).
@@ -124,15 +124,16 @@ Proof.
   replace (N.min (N.max BIG 1) (lenN bs)) with (lenN bs) by (unfold BIG in *; lia).
   rewrite (takeN_all bs (lenN bs)) by lia.
   eexists. split; [reflexivity|].
-  match goal with |- context [broker_feed ?x ?a] => destruct (broker_feed_fields x a) as [A [B [C D]]] end.
-  rewrite A, B, C, D. cbn [w_sess w_script w_live w_now upd_wire upd_log upd_script]. repeat split.
+  match goal with |- context [broker_feed ?x ?a] => destruct (broker_feed_fields x a) as [A [B [C [D E]]]] end.
+  rewrite A, B, C, D, E. cbn [w_sess w_script w_live w_now w_wire upd_wire upd_log upd_script]. repeat split.
 Qed.
 
 Lemma io_flush_healthy' : forall w, w_script w = [] ->
-  exists w1, io_flush w = (w1, FlOk) /\ w_sess w1 = w_sess w /\ w_script w1 = [] /\ w_live w1 = w_live w /\ w_now w1 = w_now w.
+  exists w1, io_flush w = (w1, FlOk) /\ w_sess w1 = w_sess w /\ w_script w1 = [] /\ w_live w1 = w_live w /\ w_now w1 = w_now w /\
+    w_wire w1 = w_wire w.
 Proof.
   intros w Hs. unfold io_flush. rewrite (next_ev_healthy w Hs). cbn [N.eqb]. eexists. split; [reflexivity|].
-  cbn [w_sess w_script w_live w_now upd_log upd_script]. repeat split.
+  cbn [w_sess w_script w_live w_now w_wire upd_log upd_script]. repeat split.
 Qed.
 
 (* ---------- entries that are unsent, awaiting their flush, or sent: no half-written one ---------- *)
@@ -303,7 +304,7 @@ Proof.
     assert (H2 : 2 <= lenN bs) by (destruct Hfr as [first Hfr]; exact (frame_len _ _ Hfr)).
     pose proof (prepared_len_small _ _ _ _ I HB Hn Hp) as Hsm.
     rewrite Hl in *. cbn [negb] in *. rewrite dropN_0 in *.
-    destruct (io_write_healthy w bs Hs ltac:(intros E; rewrite E, lenN_nil in H2; lia) Hsm) as [w1 [Ew [S1 [C1 [L1 N1]]]]].
+    destruct (io_write_healthy w bs Hs ltac:(intros E; rewrite E, lenN_nil in H2; lia) Hsm) as [w1 [Ew [S1 [C1 [L1 [N1 _]]]]]].
     rewrite Ew in *. destruct (N.eqb_spec (lenN bs) 0) as [E0|_]; [lia|].
     rewrite S1 in *. rewrite Hlen in *.
     pose proof (set_written_found (w_sess w) st (0 + len) len Hn) as Hf1.
@@ -311,7 +312,7 @@ Proof.
     destruct (N.ltb_spec (0 + len) len) as [Bad|_]; [lia|].
     assert (Es2 : s2 = fst (set_written (w_sess w) (step_key st) (0 + len) len)) by now rewrite E2.
     unfold flush_current in *. cbn [w_live upd_sess] in *. rewrite L1, Hl in *. cbn [negb] in *.
-    destruct (io_flush_healthy' (upd_sess w1 s2) C1) as [w2 [Ef [S2 [C2 [L2 N2]]]]]. rewrite Ef in *. cbn [w_sess upd_sess] in S2.
+    destruct (io_flush_healthy' (upd_sess w1 s2) C1) as [w2 [Ef [S2 [C2 [L2 [N2 _]]]]]]. rewrite Ef in *. cbn [w_sess upd_sess] in S2.
     rewrite S2 in *.
     pose proof (complete_flush_found s2 (step_key st) (w_now w) ltac:(rewrite Es2; apply has_key_set_written; exact Hkey)) as Hf3.
     destruct (complete_flush s2 (step_key st) (w_now w)) as [s3 f3] eqn:E3. cbn [snd] in Hf3. subst f3.
@@ -331,7 +332,7 @@ Proof.
   - (* written, awaiting its flush *)
     rewrite (prepare_flush (w_sess w) st Hst) in *.
     unfold flush_current in *. rewrite Hl in *. cbn [negb] in *.
-    destruct (io_flush_healthy' w Hs) as [w1 [Ef [S1 [C1 [L1 N1]]]]]. rewrite Ef in *. rewrite S1 in *.
+    destruct (io_flush_healthy' w Hs) as [w1 [Ef [S1 [C1 [L1 [N1 _]]]]]]. rewrite Ef in *. rewrite S1 in *.
     pose proof (complete_flush_found (w_sess w) (step_key st) (w_now w) Hkey) as Hf3.
     destruct (complete_flush (w_sess w) (step_key st) (w_now w)) as [s3 f3] eqn:E3. cbn [snd] in Hf3. subst f3.
     assert (Es3 : s3 = fst (complete_flush (w_sess w) (step_key st) (w_now w))) by now rewrite E3.
